@@ -1315,7 +1315,9 @@ pub struct JsonString<'a> {
 impl<'a> JsonString<'a> {
     /// Get the raw bytes including quotes.
     pub fn raw_bytes(&self) -> &'a [u8] {
-        let end = self.find_end();
+        // An unterminated string has no closing quote to include: `find_end`
+        // would point one past the end of the text.
+        let end = self.find_end().min(self.text.len());
         &self.text[self.start..end]
     }
 
